@@ -107,6 +107,9 @@ def run(prop: str, tier: str, seed: int) -> int:
         else:
             n = rng.choice([2, 4, 4, 6, 8, 10, 12])
             rounds = rng.choice([1, 2, 2, 3])
+            if k % 60 == 59:       # many teams (shipped instances have up to 40; 128+ changes the plan's dtype)
+                n = rng.choice([32, 34, 40] if tier == "quick" else [32, 34, 40, 64, 128, 130])
+                rounds = rng.choice([1, 2]) if n <= 40 else 1
             hi = rng.choice([3, 10, 100, 5000])
             sym = rng.random() < 0.5
             M = [[0] * n for _ in range(n)]
